@@ -65,6 +65,8 @@ func c05Gen(rng *rand.Rand, tier string, w *bufio.Writer) {
 	emit("p0", []string{"set 11 k0|u8:1|||||", "inc u8 k0 1 eq:5 - 0||1|u2|b3600000000000", "get k0", "restart", "get k0"})
 	emit("p1", []string{"set 11 k0|u8:1|||||", "restart", "inc u8 k0 1 eq:5 - 0||1|u2|b3600000000000", "get k0", "restart", "get k0"})
 	emit("mem", []string{"set 11 k0|i64:5|||||", "restart", "issw", "set 11 k0|i64:0|||||", "get k0"})
+	// requests on records that came back from the file
+	emit("p1", []string{"set 11 k0|str:68656c6c6f|a1000000000|u1||| k1|i64:7||||| k2|u32s:1,2|||||", "close", "shift k0", "inc i64 k1 1 - - -", "push k2:3", "close", "getall", "shift k1 k2", "issw"})
 	// delete, re-create and delete a persisted key within one write interval: the queued delete is
 	// replaced by the new treasure, which is then dropped from the write buffer unwritten
 	emit("p1", []string{"set 11 k0|i64:5||||| k1|i64:6|||||", "close", "del k0", "inc i64 k0 1 - - -", "del k0", "getall", "close", "getall", "count"})
